@@ -38,6 +38,14 @@ type C17Case struct {
 	// Slow: max requests stay inside their rule for HoldMs of wall-clock time while Waiters more
 	// requests wait for an instance; then all are let go.
 	Slow *C17Slow `json:"slow,omitempty"`
+	// Two: two pools alive at once; pool A is saturated with Two.Waiters waiting requests while
+	// pool B (1,2) hands an instance to its own waiter
+	Two *C17Two `json:"two,omitempty"`
+}
+
+type C17Two struct {
+	Waiters int `json:"waiters"`
+	Method  int `json:"method"`
 }
 
 type C17Slow struct {
@@ -137,7 +145,7 @@ end
 func init() {
 	register(&Prop{
 		ID:   "C17",
-		Rule: "request histories on pools of size (1,2),(1,3),(2,3),(2,4),(3,6): start request (healthy / rule error / panicking injected function / type fault outside the self-recovering constructs / missing name / store into a nil map / wrong key kind / out-of-range element store and read / an integer literal key on a uint8-keyed map (kind 13) / a healthy request whose data map also holds a nil value and an empty key (kind 12) / a request with a nil data map (kind 11, fails on the missing names without parking) / a failing child of the conc block in which every request parks (kind 10) / a healthy request that injects its own function, map and slice under names and Go types of values the pool was constructed with; every request also binds a local, writes its own map and slice, reads the slice through a variable index and passes an expression over its own map and slice elements to a comparing function) through any of the 24 pool execute methods, release the k-th outstanding request; up to max+4 outstanding, every request parks inside its rule on a Hold gate keyed by its id; oracle after every step: the number of requests parked inside rules equals min(max, outstanding) within the bound (waiters proceed, nothing lost) and never exceeds max, every finished request returned its own id (two in-flight requests on one instance would overwrite each other's injected object), a request never fails because the pool is busy, and after the history max requests park simultaneously again. 8% of the cases (1% in the thorough tier) are hand-over storms instead: max-1 requests stay inside their rule, the last instance is passed along a chain of 100-800 (thorough 1500) requests, each issued a generated number of spin iterations after its predecessor is let go (at most four storms at a time across the shard processes); every next request must enter its rule within the hang bound after the previous one returned and must return its own id. 3% of the cases (1% in the thorough tier) are hammers: 4-32 clients issue 100-600 (thorough 1500) short ungated requests each, at most max may be inside a rule at any time, every request returns its own id, and afterwards max requests must be inside their rule together, three times in a row; pool sizes include (40,41), (33,34), (2,65), (31,33). 1% of the cases (0.3% in the thorough tier) are long saturations: max requests stay inside their rule for 2.2-7.5 s of wall-clock time while 1-3 more requests wait; no waiter may start or fail meanwhile, afterwards every request returns its own id, the waiters proceed and max requests park together again. Non-trivial: at some point more than max requests are outstanding and a failing or panicking request finished before the final probe, or a storm of >= 300 hand-overs, or a hammer, or a long saturation; distinct by case hash",
+		Rule: "request histories on pools of size (1,2),(1,3),(2,3),(2,4),(3,6): start request (healthy / rule error / panicking injected function / type fault outside the self-recovering constructs / missing name / store into a nil map / wrong key kind / out-of-range element store and read / an integer literal key on a uint8-keyed map (kind 13) / a healthy request whose data map also holds a nil value and an empty key (kind 12) / a request with a nil data map (kind 11, fails on the missing names without parking) / a failing child of the conc block in which every request parks (kind 10) / a healthy request that injects its own function, map and slice under names and Go types of values the pool was constructed with; every request also binds a local, writes its own map and slice, reads the slice through a variable index and passes an expression over its own map and slice elements to a comparing function) through any of the 24 pool execute methods, release the k-th outstanding request; up to max+4 outstanding, every request parks inside its rule on a Hold gate keyed by its id; oracle after every step: the number of requests parked inside rules equals min(max, outstanding) within the bound (waiters proceed, nothing lost) and never exceeds max, every finished request returned its own id (two in-flight requests on one instance would overwrite each other's injected object), a request never fails because the pool is busy, and after the history max requests park simultaneously again. 8% of the cases (1% in the thorough tier) are hand-over storms instead: max-1 requests stay inside their rule, the last instance is passed along a chain of 100-800 (thorough 1500) requests, each issued a generated number of spin iterations after its predecessor is let go (at most four storms at a time across the shard processes); every next request must enter its rule within the hang bound after the previous one returned and must return its own id. 3% of the cases (1% in the thorough tier) are hammers: 4-32 clients issue 100-600 (thorough 1500) short ungated requests each, at most max may be inside a rule at any time, every request returns its own id, and afterwards max requests must be inside their rule together, three times in a row; pool sizes include (40,41), (33,34), (2,65), (31,33). 2% of the cases keep two pools alive at once: one is saturated with 1-9 waiting requests while the other (1,2) hands an instance back to its own waiter, which must proceed. 1% of the cases (0.3% in the thorough tier) are long saturations: max requests stay inside their rule for 2.2-7.5 s of wall-clock time while 1-3 more requests wait; no waiter may start or fail meanwhile, afterwards every request returns its own id, the waiters proceed and max requests park together again. Non-trivial: at some point more than max requests are outstanding and a failing or panicking request finished before the final probe, or a storm of >= 300 hand-overs, or a hammer, or a long saturation; distinct by case hash",
 		New:  func() interface{} { return &C17Case{} },
 		Gen: func(t *rapid.T) interface{} {
 			c := &C17Case{}
@@ -162,6 +170,13 @@ func init() {
 					// large pools: fewer short requests, the waves of max simultaneous requests matter
 					c.Hammer.Reqs = uni(t, "hammer_reqs_big", 5, 60)
 				}
+				return c
+			}
+			if pct(t, "two_pools", 2) {
+				sizes := [][2]int64{{1, 2}, {1, 3}, {2, 3}}
+				sz := sizes[uni(t, "two_size", 0, 2)]
+				c.PoolMin, c.PoolMax = sz[0], sz[1]
+				c.Two = &C17Two{Waiters: uni(t, "two_waiters", 1, 9), Method: uni(t, "two_m", 0, 23)}
 				return c
 			}
 			if pct(t, "slow", 1) && (!thorough() || pct(t, "slow_thorough", 30)) {
@@ -219,6 +234,10 @@ func init() {
 			}
 			if c.Slow != nil {
 				checkC17Slow(c, x)
+				return
+			}
+			if c.Two != nil {
+				checkC17Two(c, x)
 				return
 			}
 			h := newPoolHarness()
@@ -583,6 +602,120 @@ func checkC17Storm(c *C17Case, x *Ctx) {
 	x.Class("storm-completed")
 	if st.N >= 300 {
 		x.NonTrivial()
+	}
+}
+
+// c17Side is one pool of checkC17Two with its own gates.
+type c17Side struct {
+	p     *engine.GenginePool
+	slots []*c17Slot
+	call  gx.Call
+}
+
+func newC17Side(min, max int64, em int, n int, call gx.Call) (*c17Side, error) {
+	sd := &c17Side{call: call}
+	for i := 0; i < n; i++ {
+		sd.slots = append(sd.slots, &c17Slot{done: make(chan gx.Result, 1)})
+	}
+	apis := map[string]interface{}{"hold": func(id int64) {
+		s := sd.slots[id]
+		atomic.StoreInt32(&s.entered, 1)
+		for atomic.LoadInt32(&s.release) == 0 {
+			time.Sleep(100 * time.Microsecond)
+		}
+	}}
+	p, err := engine.NewGenginePool(min, max, em, c17StormRules, apis)
+	sd.p = p
+	return sd, err
+}
+
+func (sd *c17Side) exec(id int) {
+	data := map[string]interface{}{"who": &Payload{Id: int64(id), Sl: []int64{0, int64(id)}}}
+	sd.slots[id].done <- gx.OnPool(sd.p, sd.call, data, &engine.Stag{})
+}
+
+func (sd *c17Side) releaseAll() {
+	for _, s := range sd.slots {
+		atomic.StoreInt32(&s.release, 1)
+	}
+}
+
+// checkC17Two: two pools in one process. Pool A is saturated and has Waiters requests waiting;
+// pool B (1,2) is saturated with one waiter. When B's requests are let go, B's waiter must
+// get B's instance although A is still saturated: pools share nothing.
+func checkC17Two(c *C17Case, x *Ctx) {
+	tw := c.Two
+	methods := gx.MethodNames(true)
+	call := fullCall(methods[tw.Method%len(methods)], []string{"hold", "aux"}, 0)
+	amax := int(c.PoolMax)
+	a, err := newC17Side(c.PoolMin, c.PoolMax, c.EM, amax+tw.Waiters, call)
+	if err != nil {
+		x.Violation("setup", "NewGenginePool: %v", err)
+		return
+	}
+	b, err := newC17Side(1, 2, c.EM, 3, fullCall("Execute", []string{"hold", "aux"}, 0))
+	if err != nil {
+		x.Violation("setup", "NewGenginePool: %v", err)
+		return
+	}
+	defer a.releaseAll()
+	defer b.releaseAll()
+	x.Class("two-pools-alive-at-once")
+	if tw.Waiters >= 4 {
+		x.Class("two-pools:first-pool-has->=4-waiting-requests")
+		x.NonTrivial()
+	}
+	for id := 0; id < amax; id++ {
+		go a.exec(id)
+	}
+	for id := 0; id < 2; id++ {
+		go b.exec(id)
+	}
+	for id := 0; id < amax; id++ {
+		if !c17Await(&a.slots[id].entered, x) {
+			x.Violation("two-setup", "a fresh pool (%d,%d) did not run %d requests simultaneously", c.PoolMin, c.PoolMax, amax)
+			return
+		}
+	}
+	for id := 0; id < 2; id++ {
+		if !c17Await(&b.slots[id].entered, x) {
+			x.Violation("two-setup", "a fresh pool (1,2) did not run 2 requests simultaneously while another pool is busy")
+			return
+		}
+	}
+	for id := amax; id < amax+tw.Waiters; id++ {
+		go a.exec(id)
+	}
+	time.Sleep(5 * time.Millisecond) // A's waiters are in their wait loop
+	go b.exec(2)
+	time.Sleep(2 * time.Millisecond)
+	// B's parked requests go on and return; B's waiter must get an instance of B
+	for id := 0; id < 2; id++ {
+		atomic.StoreInt32(&b.slots[id].release, 1)
+	}
+	if !c17Await(&b.slots[2].entered, x) {
+		x.Violation("two-pools-waiter-stuck", "pool B (1,2): its waiting request is still waiting %v after both of B's instances were handed back, while pool A (%d,%d) of the same process is saturated with %d waiting requests: a waiter does not proceed", hangBound(), c.PoolMin, c.PoolMax, tw.Waiters)
+		return
+	}
+	b.releaseAll()
+	a.releaseAll()
+	check := func(sd *c17Side, name string, n int) bool {
+		for id := 0; id < n; id++ {
+			select {
+			case res := <-sd.slots[id].done:
+				if res.Panic != "" || res.Err != nil || fmt.Sprint(res.Map["hold"]) != fmt.Sprint(id) {
+					x.Violation("two-pools-result", "pool %s request %d returned err=%v panic=%q result=%v, want its own id", name, id, res.Err, truncate(res.Panic, 200), sortedMap(res.Map))
+					return false
+				}
+			case <-time.After(hangBound()):
+				x.Violation("two-pools-stuck", "pool %s request %d did not return within %v after everything was let go", name, id, hangBound())
+				return false
+			}
+		}
+		return true
+	}
+	if !check(b, "B", 3) || !check(a, "A", amax+tw.Waiters) {
+		return
 	}
 }
 
